@@ -403,6 +403,54 @@ def any_offset(rec, hb, pvl, tier, seed, part, nparts):
                                        f"colno={e.colno} for a character at {off}")
 
 
+def after_dash_continuation(rec, hb, pvl, part, nparts):
+    """Default grammar: inside a quoted string a dash followed by a format
+    effector (and the white space behind it) is a continuation and goes; the
+    character behind it stays - also one that only Python takes for white
+    space.  Through pvl.loads and through a PVL / ODL parser built with the
+    permissive grammar and decoder."""
+    P, G, D = pvl.parser, pvl.grammar, pvl.decoder
+    cps = sorted(set(SPECIALS) | {0xA0, 0x85, 0x1C, 0x1D, 0x1E, 0x1F, 0x2003, 0x3000,
+                                  0x2028, 0x2029, 0x1680, 0x202F, 0x205F, 0xE9, 0x7A,
+                                  0x200B, 0xFEFF} - set(map(ord, " \t\n\r\v\f\"'")))
+    routes = {
+        "pvl.loads": lambda t: pvl.loads(t),
+        "PVLParser(Omni)": lambda t: P.PVLParser(
+            grammar=G.OmniGrammar(), decoder=D.OmniDecoder()).parse(t),
+        "ODLParser(Omni)": lambda t: P.ODLParser(
+            grammar=G.OmniGrammar(), decoder=D.OmniDecoder()).parse(t),
+    }
+    k = 0
+    for o in cps:
+        for eff in ("\n", "\r", "\f", "\v", "\r\n", "\n  "):
+            for rname, fn in routes.items():
+                k += 1
+                if k % nparts != part:
+                    continue
+                hb.beat()
+                text = f'a = 1\nk = "x-{eff}{chr(o)}y"\nb = 2\nEND\n'
+                want = f"x{chr(o)}y"
+                rec.count("default_codepoints_after_dash_continuation")
+                rec.case(("dash", o, eff, rname), True)
+                try:
+                    with common.cpu_limit(30):
+                        got = fn(text)["k"]
+                    ok = type(got) is str and got == want
+                    msg = f"got {got!r}, expected {want!r}"
+                except common.CaseTimeout:
+                    rec.inconc("CPU budget exceeded (dash continuation)")
+                    continue
+                except Exception as e:
+                    ok, msg = False, f"{type(e).__name__}: {e}"[:200]
+                if not ok:
+                    rec.violation("C15", "default", "default-changes-or-rejects-char",
+                                  {"quote": '"', "after_dash_continuation": True,
+                                   "route": rname,
+                                   "block": "ascii" if o < 128 else
+                                   "latin1" if o < 256 else "beyond"},
+                                  {"codepoint": o, "text": text, "route": rname}, msg)
+
+
 def byte_routes(rec, hb, pvl, tier, part, nparts):
     """The label arrives as bytes with image data behind END (so the library
     decodes it piecewise): a disallowed multi-byte character before END - also
@@ -506,6 +554,7 @@ def shard(i, n, tier, seed, rec, hb):
         dq = sorted(set(range(0, 0x3000)) | set(EDGES)
                     | {rng.randrange(0x3000, 0x110000) for _ in range(20000)})
     default_quoted(rec, hb, pvl, list(dq), i, n)
+    after_dash_continuation(rec, hb, pvl, i, n)
 
 
 def finish_kwargs(rec, tier):
@@ -523,6 +572,7 @@ def finish_kwargs(rec, tier):
                            "default_codepoints_in_quotes",
                            "route[loads(decoder=D)]", "route[load(stream, grammar=G)]",
                            "disallowed_before_END_through_bytes",
+                           "default_codepoints_after_dash_continuation",
                            "route[load(stream, decoder=D)]"),
         assumptions=["specification predicate: PVL/ISIS = ISO 8859-1 minus "
                      "0-8, 14-31, 127-159; ODL/PDS3 = code points < 128"],
